@@ -109,7 +109,7 @@ SHARE = [
     (r"^c02_connect311_full$", ["C07"]),
     (r"^c02_pingreq$", ["C14"]),
     (r"^c02_pub(ack|rec|comp)5_success$", ["C05"]),
-    (r"^c03_(frame_rl_k3_r0|chunking_3|vli|error_absorbing|frame_body_r2_s1_n2)$", ["C11"]),
+    (r"^c03_(frame_rl_k3_r0|vli|error_absorbing|frame_body_r2_s1_n2)$", ["C11"]),
     (r"^c11_guard_(publish|puback)$", ["C07"]),
     (r"^c14_ping_step$", ["C11"]),
     (r"^c18_deadline$", ["C11"]),
